@@ -72,15 +72,42 @@ def _is_hub(name):
     return name in HUB_NAMES or name.startswith(HUB_PREFIXES) or name.endswith(HUB_SUFFIXES)
 
 
-def relevant(hyps, goal):
+_QCACHE: dict = {}
+
+
+def _has_quantifier(e):
+    key = e.get_id()
+    hit = _QCACHE.get(key)
+    if hit is not None and hit[0].eq(e):
+        return hit[1]
+    g = z3.Goal()
+    g.add(e)
+    out = z3.Probe("has-quantifiers")(g) > 0
+    _QCACHE[key] = (e, out)  # keeps the AST alive: ids are reused after garbage collection
+    return out
+
+
+def relevant(hyps, goal, depth=None):
     """cone of influence: hypotheses connected to the goal through shared symbols.  Symbols that occur
     almost everywhere (user model functions, grid/label functions, grid sizes and bounds, exp/log) are
     hubs that do not propagate relevance.  Hypotheses made of hub symbols only are always kept.
-    Dropping hypotheses is sound for `unsat`."""
+    `depth`: number of propagation rounds (None: to the fixed point).  Dropping hypotheses is sound for
+    `unsat`."""
     nonhub = lambda ss: {x for x in ss if not _is_hub(x)}
     syms = nonhub(_symbols(goal, _SYMCACHE))
     hs = [(h, nonhub(_symbols(h, _SYMCACHE))) for h in hyps]
     keep = [not ss for _, ss in hs]
+    if depth is not None:
+        for _ in range(depth):
+            new = set()
+            for i, (h, ss) in enumerate(hs):
+                if not keep[i] and ss & syms:
+                    keep[i] = True
+                    new |= ss
+            if not new - syms:
+                break
+            syms |= new
+        return [h for (h, _), kp in zip(hs, keep) if kp]
     changed = True
     while changed:
         changed = False
@@ -107,13 +134,32 @@ def discharge(hyps, goal, timeout_ms=None, want_model=False, portfolio=True, ful
         return Result("refuted", "concrete", 0.0, reason="the clause is false on this (concrete) structure")
     pre = 0.0
     if not full:
+        # goals that hold by ground reasoning (arithmetic, congruence) need none of the quantified hypotheses
+        t00 = time.time()
+        ground = [h for h in hyps if not _has_quantifier(h)]
+        if len(ground) < len(hyps) and not _has_quantifier(goal):
+            sg = _solver(ground, goal, 1000)
+            if sg.check() == z3.unsat:
+                return Result("proved", "z3-5.1", time.time() - t00)
+        # shallow cones of influence first: few axioms, so E-matching cannot wander
+        last = -1
+        for depth in (1, 2):
+            shallow = relevant(hyps, goal, depth)
+            if len(shallow) == last or len(shallow) == len(hyps):
+                break
+            last = len(shallow)
+            sd = _solver(shallow, goal, 1200)
+            sd.set("smt.mbqi", False)
+            if sd.check() == z3.unsat:
+                return Result("proved", "z3-5.1", time.time() - t00)
+        pre = time.time() - t00
         sub = relevant(hyps, goal)
         if len(sub) < len(hyps):
             # short budget: the reduced problem either goes through quickly or is abandoned
             r = discharge(sub, goal, min(timeout_ms, 6000), want_model, portfolio=False, full=True)
             if r.status == "proved":
                 return r
-            pre = r.secs
+            pre += r.secs
     t0 = time.time() - pre
     # quick first attempt: E-matching only with the explicit patterns
     s0 = _solver(hyps, goal, 1500)
